@@ -124,6 +124,40 @@ CLAIMED.update({
         design_ref='DESIGN.md §6 C12'),
 })
 
+CLAIMED.update({
+    'C01': dict(
+        text='Lean 4 model of table_to_file/table_from_file over List Char and of every *_to_file writer (files, headers and '
+             'paddings GENERATED from csv.py, row order, flattening); theorems for all rows/fields/paddings: a written line parses '
+             'back to its fields, a written file to its rows, re-save is byte-identical, int(str(i)) = i incl. negative and 19-digit '
+             'values, per-part round trips (trajectories, file/generic records, wifi/bluetooth, observations, sensors, rigs), '
+             'sorting is a permutation. Tied by byte-for-byte comparison of every file kapture_to_dir writes with the model\'s '
+             'rendering, of parsed rows with table_from_file, and of the whitespace table with str.isspace.',
+        note=COMMON_NOTE + 'PARTIAL at the typed layer: float(repr(x)), float()/int() of tokens and dataclass casts are CPython/'
+             'numpy facts exercised by the reload oracle (bit-identical floats, 1e-10 on points), not proved.',
+        technique='Lean 4 proof (structural induction on character lists) + generated tables + byte-exact correspondence',
+        design_ref='DESIGN.md §6 C01'),
+    'C02': dict(
+        text='Lean 4 specification model of a conformant text file (comment / blank / data lines with free blanks, free LF/CRLF/'
+             'CR); theorems for all layouts: the reader extracts exactly the specified content, two layouts of the same content '
+             'load alike, leading zeros accepted, every written file IS a conformant file with the version line first, and the '
+             'columns the code writes equal, file by file, the columns scraped from kapture_format.adoc (5 documented aliases). '
+             'Tied by an independent reader written from the .adoc and by re-laid-out directories loaded with the real code.',
+        note=COMMON_NOTE + 'specreader.py (column types) is my transcription of the specification; units/meaning of columns are '
+             'not checkable; typed parsing as in C01.',
+        technique='Lean 4 proof over a specification model + tables scraped from the .adoc + layout-fuzzing correspondence',
+        design_ref='DESIGN.md §6 C02'),
+    'C04': dict(
+        text='Lean 4 model of kapture_from_dir on parsed rows (version gate with decimal order, rig collision, per-file sensor-'
+             'kind filters, feature / match / observation filters); theorems for every directory content: records, trajectories, '
+             'rig members, features, matches and observations are referentially closed AND complete (iff characterisations), a '
+             'colliding rig id is rejected, a newer version is refused, another version loads the sensors side only, identically. '
+             'Tied by correspondence on real directories with injected dangling entries, version strings and tar packing.',
+        note=COMMON_NOTE + 'starts from the rows of the text layer (C01); repeated keys in a file (dict overwrite) are outside; '
+             '"1.10" loads like an older version (documented ambiguity).',
+        technique='Lean 4 proof (inversion lemma of the loader + list membership) + injected-dangling-reference correspondence',
+        design_ref='DESIGN.md §6 C04'),
+})
+
 NOT_YET = {
 }
 
